@@ -48,6 +48,11 @@ Definition auth_usage (sname : list bytes) : Z :=
 
 Definition us (secs : Z) : Z := secs * 1000000.
 
+(* the service an accepted authenticator is remembered for: the principal whose key decrypted the ticket (repaired
+   code: with a keytab principal override the ticket's own, unprotected, sname plays no part) *)
+Definition eff_sname (st : settings) (tk : ticket) : list bytes :=
+  match st_override st with Some o => o | None => tk_sname tk end.
+
 Section Verify.
   Variable dec_ticket : bytes -> option enc_ticket.      (* EncTicketPart.Unmarshal *)
   Variable dec_auth : bytes -> option authenticator.     (* Authenticator.Unmarshal *)
@@ -88,7 +93,7 @@ Section Verify.
                   if d <? Z.abs (t - ct) then (Reject 37, rc)                 (* SKEW *)
                   else if st_require_addr st && (length (et_caddr et) =? 0)%nat then (Reject 38, rc)
                   else
-                    let a := mkAuth (join_slash (au_cname au)) ct (tk_sname tk) in
+                    let a := mkAuth (join_slash (au_cname au)) ct (eff_sname st tk) in
                     if existsb (auth_eqb a) rc then (Reject 34, rc)           (* REPEAT *)
                     else (Accept (mkIdentity (join_slash (au_cname au)) (au_crealm au) (au_cname au) (et_end et)),
                           a :: rc)
